@@ -497,3 +497,226 @@ Proof.
     eapply (del_clears (st s3) L_TRACE h 0 (st s4) A3 eq_refl E4); eassumption.
   - eapply (del_clears (st s4) L_PG h 0 (st s5) A4 eq_refl E5); eassumption.
 Qed.
+
+(* ------------------------------------------------------------------ at most one attribute record per identifier *)
+Definition ids (l : list arec) : list nat := map a_id l.
+Definition uniq (s : astate) : Prop := NoDup (ids (recs s)).
+
+Lemma ids_upd_rec id f l : (forall r, a_id (f r) = a_id r) -> ids (upd_rec id f l) = ids l.
+Proof.
+  intros Hf. induction l as [|r l IH]; simpl; [reflexivity|].
+  destruct (Nat.eqb (a_id r) id); simpl; [rewrite Hf; reflexivity | rewrite IH; reflexivity].
+Qed.
+
+Lemma del_rec_incl id l x : In x (ids (del_rec id l)) -> In x (ids l).
+Proof.
+  induction l as [|r l IH]; simpl; [auto|].
+  destruct (Nat.eqb (a_id r) id); simpl; [auto|]. intros [H | H]; [left; exact H | right; apply IH; exact H].
+Qed.
+
+Lemma nodup_del_rec id l : NoDup (ids l) -> NoDup (ids (del_rec id l)).
+Proof.
+  induction l as [|r l IH]; simpl; intros H; [constructor|].
+  inversion H as [|? ? Hn Hr]; subst.
+  destruct (Nat.eqb (a_id r) id); simpl; [exact Hr|].
+  constructor; [intros Hin; apply Hn; eapply del_rec_incl; exact Hin | apply IH; exact Hr].
+Qed.
+
+Lemma find_rec_none id l : find_rec id l = None -> ~ In id (ids l).
+Proof.
+  induction l as [|r l IH]; simpl; [auto|].
+  destruct (Nat.eqb (a_id r) id) eqn:E; [discriminate|].
+  intros H [Hin | Hin]; [apply Nat.eqb_neq in E; auto | exact (IH H Hin)].
+Qed.
+
+Lemma fresh_not_in s id : fresh s id = true -> ~ In id (ids (recs s)).
+Proof.
+  unfold fresh. intros H. apply andb_true_iff in H as [_ H].
+  destruct (find_rec id (recs s)) eqn:E; [discriminate|]. apply find_rec_none. exact E.
+Qed.
+
+Lemma lput_recs s op s' : lput s op = Ok s' -> recs s' = recs s.
+Proof. unfold lput. destruct (lstep (st s) op); intros H; inversion H; subst; reflexivity. Qed.
+
+Lemma set_props_id p r : a_id (set_props p r) = a_id r. Proof. reflexivity. Qed.
+Lemma set_members_id m r : a_id (set_members m r) = a_id r. Proof. reflexivity. Qed.
+Lemma set_name_id n r : a_id (set_name n r) = a_id r. Proof. reflexivity. Qed.
+
+Lemma ids_new_pg s h pgname pgid s' : new_pg s h pgname pgid = Ok s' -> ids (recs s') = ids (recs s) ++ [pgid].
+Proof.
+  unfold new_pg. intros H. apply lput_recs in H. rewrite H. simpl. unfold ids. rewrite map_app. reflexivity.
+Qed.
+
+Lemma ids_create_data s h pg d name vs s' : create_data s h pg d name vs = Ok s' -> ids (recs s') = ids (recs s) ++ [d].
+Proof.
+  unfold create_data. intros H.
+  match type of H with match lput ?a ?b with _ => _ end = _ => destruct (lput a b) as [s1|e] eqn:E1; [|discriminate] end.
+  apply lput_recs in H. apply lput_recs in E1. rewrite H, E1. simpl.
+  rewrite ids_upd_rec by (intros; apply set_members_id). unfold ids at 1. rewrite map_app. simpl.
+  fold (ids (upd_rec h (fun r => set_props (a_props r ++ [(name, d)]) r) (recs s))).
+  rewrite ids_upd_rec by (intros; apply set_props_id). reflexivity.
+Qed.
+
+Lemma uniq_remove_pg_entity s h pg s' : uniq s -> remove_pg_entity s h pg = Ok s' -> uniq s'.
+Proof.
+  unfold remove_pg_entity, uniq. intros U H.
+  match type of H with match lput ?a ?b with _ => _ end = _ => destruct (lput a b) as [s1|e] eqn:E1; [|discriminate] end.
+  inversion H; subst. simpl. apply nodup_del_rec. rewrite (lput_recs _ _ _ E1). exact U.
+Qed.
+
+Lemma uniq_rm_data_simple s h d s' : uniq s -> rm_data_simple s h d = Ok s' -> uniq s'.
+Proof.
+  unfold rm_data_simple. intros U H.
+  destruct (find_rec d (recs s)) as [rd|]; [|discriminate].
+  destruct (lput s (Del (a_name rd) h d)) as [s1|e] eqn:E1; [|discriminate].
+  assert (U1 : uniq s1) by (unfold uniq; rewrite (lput_recs _ _ _ E1); exact U).
+  match type of H with match ?x with _ => _ end = _ => destruct x as [s3|e] eqn:E3; [|discriminate] end.
+  assert (U3 : uniq s3).
+  { destruct (pg_of_data s1 h d) as [pg|]; [|inversion E3; subst; exact U1].
+    destruct (find_rec pg (recs s1)) as [rp|]; [|discriminate].
+    destruct (remove_first d (a_members rp)).
+    - eapply uniq_remove_pg_entity; [|exact E3]. unfold uniq. simpl. rewrite ids_upd_rec by (intros; apply set_members_id). exact U1.
+    - unfold uniq. rewrite (lput_recs _ _ _ E3). simpl. rewrite ids_upd_rec by (intros; apply set_members_id). exact U1. }
+  destruct (has_key (a_name rd) (keys_of s3 h)); [|discriminate].
+  inversion H; subst. unfold uniq. simpl. apply nodup_del_rec. rewrite ids_upd_rec by (intros; apply set_props_id). exact U3.
+Qed.
+
+Lemma uniq_rm_data s h d s' : uniq s -> rm_data s h d = Ok s' -> uniq s'.
+Proof.
+  unfold rm_data. intros U H.
+  destruct (rm_data_simple s h d) as [s1|e] eqn:E1; [|discriminate].
+  pose proof (uniq_rm_data_simple _ _ _ _ U E1) as U1.
+  destruct (pg_of_data s h d) as [pg|]; [|inversion H; subst; exact U1].
+  destruct (find_rec pg (recs s1)) as [rp|]; [|inversion H; subst; exact U1].
+  destruct (a_members rp) as [|x [|y l]]; try (inversion H; subst; exact U1).
+  destruct (depth_of s1 pg) as [dd|]; [|inversion H; subst; exact U1].
+  eapply uniq_rm_data_simple; eassumption.
+Qed.
+
+Lemma uniq_rm_datas h ds : forall s s', uniq s -> rm_datas s h ds = Ok s' -> uniq s'.
+Proof.
+  induction ds as [|d r IH]; intros s s' U H; simpl in H.
+  - inversion H; subst. exact U.
+  - destruct (find_rec d (recs s)); [|eapply IH; eassumption].
+    destruct (rm_data s h d) as [s1|e] eqn:E1; [|discriminate].
+    eapply IH; [eapply uniq_rm_data; eassumption | exact H].
+Qed.
+
+Lemma uniq_rm_pg s h pg s' : uniq s -> rm_pg s h pg = Ok s' -> uniq s'.
+Proof.
+  unfold rm_pg. intros U H.
+  destruct (find_rec pg (recs s)) as [rp|]; [|discriminate].
+  destruct (rm_datas s h (a_members rp)) as [s1|e] eqn:E1; [|discriminate].
+  match type of H with match lput ?a ?b with _ => _ end = _ => destruct (lput a b) as [s2|e] eqn:E2; [|discriminate] end.
+  inversion H; subst. unfold uniq. simpl. apply nodup_del_rec. rewrite (lput_recs _ _ _ E2).
+  eapply uniq_rm_datas; eassumption.
+Qed.
+
+Lemma uniq_rm_pgs h pgs : forall s s', uniq s -> rm_pgs s h pgs = Ok s' -> uniq s'.
+Proof.
+  induction pgs as [|pg r IH]; intros s s' U H; simpl in H.
+  - inversion H; subst. exact U.
+  - destruct (find_rec pg (recs s)); [|eapply IH; eassumption].
+    destruct (rm_pg s h pg) as [s1|e] eqn:E1; [|discriminate].
+    eapply IH; [eapply uniq_rm_pg; eassumption | exact H].
+Qed.
+
+Lemma step_uniq s op s' : uniq s -> outcome (api_step s op) = Some s' -> uniq s'.
+Proof.
+  intros U Ho. destruct op; simpl in Ho.
+  - (* AddHole *)
+    destruct (fresh s h) eqn:F; simpl in Ho; [|discriminate]. apply soft_or_hard_out in Ho.
+    match type of Ho with match lput ?a ?b with _ => _ end = _ => destruct (lput a b) as [s2|e] eqn:E; [|discriminate] end.
+    unfold uniq. rewrite (lput_recs _ _ _ Ho), (lput_recs _ _ _ E). simpl. unfold ids. rewrite map_app. simpl.
+    apply NoDup_snoc; [exact U | apply fresh_not_in; exact F].
+  - (* SetSurveys *)
+    destruct (live_hole s h); simpl in Ho; [|discriminate]. apply soft_or_hard_out in Ho.
+    destruct (lput s (Put L_SURV h 0 surv)) as [s2|e] eqn:E; [|discriminate].
+    unfold uniq. rewrite (lput_recs _ _ _ Ho), (lput_recs _ _ _ E). exact U.
+  - (* AddData *)
+    destruct (live_hole s h); simpl in Ho; [|discriminate].
+    destruct (has_key name (keys_of s h)); [inversion Ho; subst; exact U|].
+    destruct depth as [dv|];
+      destruct (match pg_by_name s h pgname with
+                | Some pg => match depth_of s pg with Some _ => true | None => false end
+                | None => false end) eqn:Ene; try discriminate.
+    + destruct (Nat.ltb (length dv) (length vals)); [inversion Ho; subst; exact U|].
+      destruct (fresh s depid) eqn:F1; simpl in Ho; [|discriminate].
+      destruct (fresh s did) eqn:F2; simpl in Ho; [|discriminate].
+      destruct (Nat.eqb depid did) eqn:F3; simpl in Ho; [discriminate|]. apply Nat.eqb_neq in F3.
+      match type of Ho with outcome (match ?r1 with _ => _ end) = _ => destruct r1 as [[s1 pg]|e] eqn:E1; [|discriminate] end.
+      assert (I1 : NoDup (ids (recs s1)) /\ ~ In depid (ids (recs s1)) /\ ~ In did (ids (recs s1))).
+      { destruct (pg_by_name s h pgname) as [pg0|].
+        - inversion E1; subst. split; [exact U|]. split; apply fresh_not_in; assumption.
+        - destruct (fresh s pgid) eqn:F4; simpl in E1; [|discriminate].
+          destruct (Nat.eqb pgid depid) eqn:F5; simpl in E1; [discriminate|].
+          destruct (Nat.eqb pgid did) eqn:F6; simpl in E1; [discriminate|].
+          apply Nat.eqb_neq in F5. apply Nat.eqb_neq in F6.
+          destruct (new_pg s h pgname pgid) as [s1'|e] eqn:En; [|discriminate]. inversion E1; subst.
+          rewrite (ids_new_pg _ _ _ _ _ En). split; [apply NoDup_snoc; [exact U | apply fresh_not_in; exact F4]|].
+          split; intros Hin; apply in_app_or in Hin as [Hin | [Hin | []]].
+          + exact (fresh_not_in _ _ F1 Hin).
+          + congruence.
+          + exact (fresh_not_in _ _ F2 Hin).
+          + congruence. }
+      destruct I1 as (U1 & N1 & N2).
+      match type of Ho with outcome (if ?c then _ else _) = _ => destruct c; [discriminate|] end.
+      match type of Ho with outcome (match ?c with _ => _ end) = _ => destruct c as [s2|e] eqn:E2; [|discriminate] end.
+      apply soft_or_hard_out in Ho.
+      unfold uniq. rewrite (ids_create_data _ _ _ _ _ _ _ Ho), (ids_create_data _ _ _ _ _ _ _ E2).
+      apply NoDup_snoc; [apply NoDup_snoc; assumption|].
+      intros Hin. apply in_app_or in Hin as [Hin | [Hin | []]]; [exact (N2 Hin) | congruence].
+    + destruct (pg_by_name s h pgname) as [pg0|]; [|discriminate].
+      destruct (depth_vals s h pg0) as [dv|]; [|discriminate].
+      destruct (Nat.ltb (length dv) (length vals)); [inversion Ho; subst; exact U|].
+      destruct (fresh s did) eqn:F; simpl in Ho; [|discriminate].
+      apply soft_or_hard_out in Ho. unfold uniq. rewrite (ids_create_data _ _ _ _ _ _ _ Ho).
+      apply NoDup_snoc; [exact U | apply fresh_not_in; exact F].
+    + inversion Ho; subst. exact U.
+  - (* AddPG *)
+    destruct (live_hole s h); simpl in Ho; [|discriminate].
+    destruct (pg_by_name s h pgname); [inversion Ho; subst; exact U|].
+    destruct (fresh s pgid) eqn:F; [|discriminate]. apply soft_or_hard_out in Ho.
+    unfold uniq. rewrite (ids_new_pg _ _ _ _ _ Ho). apply NoDup_snoc; [exact U | apply fresh_not_in; exact F].
+  - (* SetValues *)
+    destruct (live_hole s h); simpl in Ho; [|discriminate].
+    destruct (find_rec d (recs s)) as [rd|]; [|discriminate].
+    match type of Ho with outcome (match ?c with _ => _ end) = _ => destruct c as [[n|]|]; try discriminate end.
+    + destruct (Nat.ltb n (length vals)); [inversion Ho; subst; exact U|].
+      apply soft_or_hard_out in Ho. unfold uniq. rewrite (lput_recs _ _ _ Ho). exact U.
+    + apply soft_or_hard_out in Ho. unfold uniq. rewrite (lput_recs _ _ _ Ho). exact U.
+  - (* Rename *)
+    destruct (live_hole s h); simpl in Ho; [|discriminate].
+    destruct (find_rec d (recs s)); [|discriminate]. inversion Ho; subst.
+    unfold uniq. simpl. rewrite ids_upd_rec by (intros; apply set_name_id). exact U.
+  - (* RemoveData *)
+    destruct (live_hole s h); simpl in Ho; [|discriminate].
+    destruct (rm_data s h d) as [s1|e] eqn:E; [|discriminate]. inversion Ho; subst. eapply uniq_rm_data; eassumption.
+  - (* RemovePG *)
+    destruct (live_hole s h); simpl in Ho; [|discriminate].
+    apply soft_or_hard_out in Ho. eapply uniq_rm_pg; eassumption.
+  - (* RemoveHole *)
+    destruct (live_hole s h); simpl in Ho; [|discriminate].
+    destruct (rm_pgs s h (pgs_of s h)) as [s1|e] eqn:E1; [|discriminate].
+    match type of Ho with outcome (match ?c with _ => _ end) = _ => destruct c as [s2|e] eqn:E2; [|discriminate] end.
+    destruct (lput s2 (Del L_SURV h 0)) as [s3|e] eqn:E3; [|discriminate].
+    destruct (lput s3 (Del L_TRACE h 0)) as [s4|e] eqn:E4; [|discriminate].
+    destruct (lput s4 (Del L_PG h 0)) as [s5|e] eqn:E5; [|discriminate].
+    inversion Ho; subst. unfold uniq. simpl. apply nodup_del_rec.
+    rewrite (lput_recs _ _ _ E5), (lput_recs _ _ _ E4), (lput_recs _ _ _ E3).
+    eapply uniq_rm_datas; [eapply uniq_rm_pgs; eassumption | exact E2].
+  - (* Reopen *)
+    inversion Ho; subst. unfold uniq. simpl. unfold ids. rewrite map_map.
+    replace (map _ (recs s)) with (map a_id (recs s)); [exact U|].
+    apply map_ext. intros r. destruct (a_kind r); reflexivity.
+Qed.
+
+Lemma run_uniq ops : forall s0 s, uniq s0 -> last_state s0 (arun s0 ops) = Some s -> uniq s.
+Proof.
+  induction ops as [|op r IH]; intros s0 s U Hlast; simpl in *.
+  - inversion Hlast; subst. exact U.
+  - destruct (api_step s0 op) as [s1|e s1|e] eqn:E; simpl in *.
+    + eapply (IH s1); [eapply step_uniq; [exact U | rewrite E; reflexivity] | exact Hlast].
+    + eapply (IH s1); [eapply step_uniq; [exact U | rewrite E; reflexivity] | exact Hlast].
+    + discriminate.
+Qed.
